@@ -18,8 +18,9 @@ def connected(compress):
     return ws, run.sock, gen
 
 
-def compress_order_vs_wire_order():
-    """A deflates m1 and is stopped before its frame is written; B deflates and writes m2; A resumes"""
+def compress_order_vs_wire_order(cut='after-compress'):
+    """A deflates m1 and is stopped before its frame is written - right after compress() returns, or on entry to
+    session.write (i.e. after any lock held only around the deflater was released); B deflates and writes m2; A resumes"""
     ws, sock, gen = connected(True)
     comp = ws.state.compression
     gate = sched.Gate()
@@ -27,10 +28,18 @@ def compress_order_vs_wire_order():
 
     def compress(payload):
         out = orig(payload)
-        if threading.current_thread().name == 'A':
+        if cut == 'after-compress' and threading.current_thread().name == 'A':
             gate.hit()
         return out
     comp.compress = compress
+    session = ws.state.session
+    orig_write = session.write
+
+    def write(data, *a, **kw):
+        if cut == 'before-write' and threading.current_thread().name == 'A':
+            gate.hit()
+        return orig_write(data, *a, **kw)
+    session.write = write
     m1 = 'the quick brown fox jumps over the lazy dog ' * 8
     m2 = 'the quick brown fox jumps over the lazy cat ' * 8
     a = sched.run_thread(lambda: ws.send_text(m1), 'A')
@@ -92,11 +101,12 @@ def torn_frames():
 
 def replay(obligation, extra):
     for name, fn in (('thread A deflates m1 and is interrupted before its frame is written; thread B deflates and writes m2; A resumes (context takeover)', compress_order_vs_wire_order),
+                     ('thread A has deflated m1 and is interrupted on entry to session.write; thread B deflates and writes m2; A resumes (context takeover)', lambda: compress_order_vs_wire_order('before-write')),
                      ('sendall split in two steps, two threads each sending two messages', torn_frames)):
         err = fn()
         if err:
             return dict(found=True, input='schedule: ' + name, expected='whole frames, each thread in order, every message decodable by the peer in wire order', observed=err)
-    return dict(found=False, tried='2 forced schedules (compress/write order under context takeover; split sendall)')
+    return dict(found=False, tried='3 forced schedules (compress/write order under context takeover, two cut points; split sendall)')
 
 
 def known_finding(kf):
